@@ -191,6 +191,9 @@ class mapper(object):
         n = self.__map.lastw
         try:
             i = K.index(k.a)
+            if list(self.__map.values())[i].size < k.size:
+                # the recorded write does not cover the whole read
+                i = -1
         except ValueError:
             # k has never been written to explicitly
             # but it is maybe in a zone that was written to
